@@ -6,6 +6,7 @@ import (
 	"path/filepath"
 	"regexp"
 	"runtime"
+	"runtime/debug"
 	"sort"
 	"strings"
 	"testing"
@@ -182,6 +183,13 @@ func fdLeaked(base, now map[string]bool) []string {
 
 func runC09(t *testing.T, sc *Scenario) Result {
 	res := okResult()
+	// a file the handler forgot to close is closed by its finalizer whenever the collector happens to run: no
+	// collection during the run, so that the census sees what the handler itself released
+	old := debug.SetGCPercent(-1)
+	defer func() {
+		debug.SetGCPercent(old)
+		runtime.GC()
+	}()
 	var base, after map[string]int
 	var lBase, lAfter []string
 	var fdBase, fdAfter map[string]bool
